@@ -10,7 +10,10 @@ Scenarios
   leak      a factory / `_uncached_lookup` that raises, an unhashable `provided`: reference counts stay put
   lazyreq   `required` is a lazy iterable that mutates the registry while it is being turned into a tuple
   descr     a `__providedBy__` descriptor that mutates the registry during queryAdapter
-  pychanged a specification whose `unsubscribe` performs a lookup while `changed()` iterates its bookkeeping"""
+  pychanged a specification whose `unsubscribe` performs a lookup while `changed()` iterates its bookkeeping
+  midwalk   the registry's `_mappingType` (a documented extension point, e.g. a persistent mapping) runs code on `.get`:
+            while the uncached lookup walks the candidates for the provided interface, the registration of the
+            candidate being visited is removed"""
 import gc
 import sys
 
@@ -26,7 +29,7 @@ def run(lines, out, args):
     class IP(Interface):
         pass
 
-    def mkreg(flavour, hook):
+    def mkreg(flavour, hook, mapping=None):
         """a registry whose lookup object calls `hook(kind, self, compute)` inside _uncached_*"""
         base_lookup = A.VerifyingAdapterLookup if flavour == "verifying" else A.AdapterLookup
         base_reg = A.VerifyingAdapterRegistry if flavour == "verifying" else A.AdapterRegistry
@@ -43,6 +46,8 @@ def run(lines, out, args):
 
         class Reg(base_reg):
             LookupClass = L
+            if mapping is not None:
+                _mappingType = mapping
         return Reg()
 
     def ask(reg, ep, ob=None):
@@ -209,6 +214,37 @@ def run(lines, out, args):
                 later = ask(reg, ep, Ob())
                 if first not in ("adapter-1", "adapter-2") or later != "adapter-2":
                     got = "FAIL: __providedBy__ re-registered during %s; answers %r then %r, the registry holds adapter-2" % (ep, first, later)
+            elif scen == "midwalk":
+                IP1 = InterfaceClass("IP1", (IP,), __module__="zi.gen")
+                IP2 = InterfaceClass("IP2", (IP,), __module__="zi.gen")
+                state = {"armed": False}
+
+                class HookDict(dict):
+                    def get(self, k, d=None):
+                        if state["armed"] and (k is IP1 or k is IP2):
+                            state["armed"] = False
+                            state["visited"] = k
+                            state["reg"].unregister((IR,), k, "")       # the candidate being visited loses its only registration
+                        return dict.get(self, k, d)
+                reg = mkreg(flavour, lambda kind, lk, compute: compute(), HookDict)
+                state["reg"] = reg
+                reg.register((IR,), IP1, "", fac1)
+                reg.register((IR,), IP2, "", fac2)
+                facs = {id(IP1): fac1, id(IP2): fac2}
+                state["armed"] = True
+                first = ask(reg, ep, ob)
+                later = [ask(reg, ep, ob) for _ in range(2)]
+                if "visited" not in state:
+                    got = "FAIL: harness: the mapping hook never fired"
+                else:
+                    k = state["visited"]
+                    other = IP2 if k is IP1 else IP1
+                    old, new = expect(ep, facs[id(k)]), expect(ep, facs[id(other)])
+                    if first not in (old, new):
+                        got = "FAIL: the %s interrupted while visiting candidate %s returned %r, neither the answer before (%r) nor after (%r) that candidate's registration was removed" % (
+                            ep, k.__name__, first, old, new)
+                    elif any(x != new for x in later):
+                        got = "FAIL: after the mutation %s answers %r, the registry holds %r" % (ep, later, new)
             elif scen == "pychanged":
                 state = {}
 
